@@ -513,6 +513,11 @@ pub struct WSim {
   pub hb_count: i32,
   pub fs: u16,        // fragment size of this writer
   pub frag: std::collections::BTreeMap<i64, FragInfo>,
+  /// a GAP [start, until) that was sent with start above the live ack_base and until beyond
+  /// ack_base + 256: the reader records only the window (repo fix c71c7f1); the generator follows
+  /// up (DATA up to start, HEARTBEAT beyond, renewed GAP from the base).  .2 = a HEARTBEAT was sent
+  /// since the base reached the range
+  pub far: Option<(i64, i64, bool)>,
 }
 
 /// payload = CDR_LE header ++ (u32 length ++ bytes), padded to 4: decodable as a byte sequence
@@ -544,10 +549,11 @@ impl Gen {
         hb_count: 0,
         fs: *r.pick(&[4u16, 8, 8, 12, 16]),
         frag: Default::default(),
+        far: None,
       });
     }
     if r.chance(1, 6) {
-      ws.push(WSim { id: 9, matched: false, next_sn: 1, first: 1, hb_count: 0, fs: 8, frag: Default::default() });
+      ws.push(WSim { id: 9, matched: false, next_sn: 1, first: 1, hb_count: 0, fs: 8, frag: Default::default(), far: None });
     }
     let with_ts = r.chance(1, 2);
     Gen { r, ws, profile, with_ts }
@@ -576,6 +582,11 @@ impl Gen {
     let k = self.r.below(100);
     if profile == 3 && self.r.chance(1, 5) {
       return self.hostile(wi, b);
+    }
+    if self.ws[wi].far.is_some() && self.r.chance(3, 5) {
+      if let Some(op) = self.far_follow_up(wi, b) {
+        return op;
+      }
     }
     let (p_data, p_frag, p_hb) = match profile {
       1 => (80, 83, 93),
@@ -763,8 +774,78 @@ impl Gen {
     Op::Hb { w: w.id, first, last, count, fin }
   }
 
+  /// What a writer does after a GAP whose far part the reader did not record: the samples below
+  /// the range arrive (the base moves up to / into the range), a HEARTBEAT makes the reader ask
+  /// again, the GAP is renewed from the reader's base (or from around it).
+  fn far_follow_up(&mut self, wi: usize, b: i64) -> Option<Op> {
+    let (start, until, hb_sent) = self.ws[wi].far?;
+    let id = self.ws[wi].id;
+    if b >= until || b < 1 || until > MAX_SN - 2000 {
+      // (ranges that reach the accepted maximum are not followed up: no overflow in the generator)
+      self.ws[wi].far = None;
+      return None;
+    }
+    if b < start {
+      if start - b > 12 {
+        // too far below: let a HEARTBEAT with a higher first close the distance
+        self.ws[wi].hb_count += 1;
+        let c = self.ws[wi].hb_count;
+        self.ws[wi].first = self.ws[wi].first.max(start);
+        return Some(Op::Hb { w: id, first: start, last: until + 5, count: c, fin: false });
+      }
+      let ts = self.ts();
+      let w = &mut self.ws[wi];
+      w.next_sn = w.next_sn.max(b + 1);
+      return Some(Op::Data { w: id, sn: b, ts, payload: payload_for(id, b, 4) });
+    }
+    if !hb_sent {
+      self.ws[wi].hb_count += 1;
+      let c = self.ws[wi].hb_count;
+      let first = self.ws[wi].first;
+      let last = until + *self.r.pick(&[-1i64, 0, 3, 200, 300]);
+      self.ws[wi].far = Some((start, until, true));
+      self.ws[wi].next_sn = self.ws[wi].next_sn.max(last.min(b + 1200) + 1);
+      return Some(Op::Hb { w: id, first, last, count: c, fin: self.r.chance(1, 2) });
+    }
+    // renewed GAP: from the base (taken whole), sometimes from just below / above it
+    let s = b + *self.r.pick(&[0i64, 0, 0, 0, -1, -3, 1]);
+    self.ws[wi].far = if s > b && until > b + 256 { Some((s, until, false)) } else { None };
+    Some(Op::Gap { w: id, start: s.max(1), base: until, numbits: 0, bits: vec![] })
+  }
+
   fn gap(&mut self, wi: usize, b: i64) -> Op {
     let c = self.r.below(100);
+    // GAP ranges that start above the ack base and reach beyond the 256-window from it
+    let far_p = match self.profile {
+      2 => 30,
+      3 => 20,
+      1 => 4,
+      _ => 12,
+    };
+    if self.r.below(100) < far_p {
+      // (the live base may sit at the accepted maximum: no overflow in the generator itself)
+      let b = b.min(MAX_SN);
+      let start = b + *self.r.pick(&[1i64, 1, 2, 3, 5, 8, 100, 200, 254, 255, 256, 257, 300]);
+      let until = if self.profile == 3 && self.r.chance(1, 3) {
+        *self.r.pick(&[b.saturating_add(300_005).min(i64::MAX - 70_000), 1i64 << 40, MAX_SN, MAX_SN - 1])
+      } else {
+        b + *self.r.pick(&[256i64, 257, 258, 300, 400, 511, 512, 513, 600, 1000, 5000])
+      };
+      let until = until.max(start);
+      let numbits = *self.r.pick(&[0u32, 0, 0, 2, 8, 33]);
+      let mut bits = Vec::new();
+      for i in 0..numbits {
+        if self.r.below(2) == 0 {
+          bits.push(until.saturating_add(i as i64));
+        }
+      }
+      let w = &mut self.ws[wi];
+      if until > b + 256 && start >= 1 {
+        w.far = Some((start, until, false));
+      }
+      w.next_sn = w.next_sn.max(until.min(b + 400));
+      return Op::Gap { w: w.id, start, base: until, numbits, bits };
+    }
     let start = if c < 30 {
       b
     } else if c < 60 {
@@ -819,7 +900,15 @@ impl Gen {
         // GAP whose range starts at or below the base: constant work whatever its length
         Op::Gap { w: id, start: (b - 1).max(1), base: b + 3, numbits: 0, bits: vec![] }
       }
-      3 => Op::Gap { w: id, start: big, base: big, numbits: 8, bits: vec![big] },
+      3 => {
+        if self.r.chance(1, 2) {
+          Op::Gap { w: id, start: big, base: big, numbits: 8, bits: vec![big] }
+        } else {
+          // starts above the base, claims an enormous range: only the 256-window is recorded
+          self.ws[wi].far = Some((b + 2, big.min(MAX_SN), false));
+          Op::Gap { w: id, start: b + 2, base: big, numbits: 0, bits: vec![] }
+        }
+      }
       _ => {
         self.ws[wi].hb_count += 1;
         let c = self.ws[wi].hb_count;
@@ -862,20 +951,34 @@ fn run_generated(rng: Rng, profile: u8, nops: usize) -> CaseRun {
   let mut ops = Vec::new();
   let mut obs = Vec::new();
   let mut panicked = false;
-  let r = catch_unwind(AssertUnwindSafe(|| {
-    let mut rig = Rig::with_own_cache(&matched, &qos, "c03_topic");
-    for _ in 0..nops {
-      let bases: Vec<(u8, i64)> = gen.ws.iter().map(|w| (w.id, 0)).collect();
-      let bases: Vec<(u8, i64)> = bases.iter().map(|(id, _)| (*id, rig.ack_base(*id))).collect();
-      let op = gen
-        .next(&|id| bases.iter().find(|(i, _)| *i == id).map(|p| p.1).unwrap_or(1))
-        .normalized();
-      ops.push(op.clone());
-      obs.push(rig.feed(&op));
+  // only the code under test runs inside catch_unwind: a panic of the generator must not be
+  // reported as a panic of the implementation
+  let mut rig = match catch_unwind(AssertUnwindSafe(|| Rig::with_own_cache(&matched, &qos, "c03_topic"))) {
+    Ok(r) => r,
+    Err(_) => return CaseRun { matched, ops, obs, panicked: true },
+  };
+  for _ in 0..nops {
+    let ids: Vec<u8> = gen.ws.iter().map(|w| w.id).collect();
+    let bases = match catch_unwind(AssertUnwindSafe(|| {
+      ids.iter().map(|id| (*id, rig.ack_base(*id))).collect::<Vec<(u8, i64)>>()
+    })) {
+      Ok(b) => b,
+      Err(_) => {
+        panicked = true;
+        break;
+      }
+    };
+    let op = gen
+      .next(&|id| bases.iter().find(|(i, _)| *i == id).map(|p| p.1).unwrap_or(1))
+      .normalized();
+    ops.push(op.clone());
+    match catch_unwind(AssertUnwindSafe(|| rig.feed(&op))) {
+      Ok(o) => obs.push(o),
+      Err(_) => {
+        panicked = true;
+        break;
+      }
     }
-  }));
-  if r.is_err() {
-    panicked = true;
   }
   CaseRun { matched, ops, obs, panicked }
 }
@@ -906,8 +1009,48 @@ fn tags_of(cr: &CaseRun, kind: &str) -> (Vec<String>, bool) {
   let mut bits = 0;
   let mut full = false;
   let mut maxbase = 0;
+  // GAP ranges above the ack base of their time that reach beyond its 256-window (fix c71c7f1):
+  // per writer the live base before each operation, and the declared-but-not-recorded parts
+  let mut live: std::collections::BTreeMap<u8, i64> = Default::default();
+  let mut far_parts: Vec<(u8, i64, i64)> = Vec::new();
   for (op, o) in cr.ops.iter().zip(cr.obs.iter()) {
     tags.push(format!("op:{}", op.kind()));
+    let before = *live.get(&op.writer()).unwrap_or(&1);
+    if let Op::Gap { w, start, base, .. } = op {
+      if o.base != 0 && *start >= 1 && *start <= MAX_SN && *base <= MAX_SN && *base > *start {
+        let span = *base - *start;
+        if *start > before {
+          tags.push("branch:gap_above_base".to_string());
+          if span > 256 {
+            tags.push("branch:gap_above_base_span>256".to_string());
+          }
+          if *base > before + 256 {
+            tags.push("branch:gap_cut".to_string());
+            far_parts.push((*w, (*start).max(before + 256), *base));
+            if *start > before + 255 {
+              tags.push("branch:gap_beyond_window".to_string());
+            }
+          }
+        } else if *base > before + 256 {
+          tags.push("branch:gap_from_base_span>256".to_string());
+          if far_parts.iter().any(|(fw, lo, hi)| fw == w && *lo < *base && before < *hi) {
+            tags.push("branch:gap_renewed_after_cut".to_string());
+          }
+        }
+      }
+    }
+    if o.base != 0 {
+      live.insert(op.writer(), o.base);
+    }
+    for r in &o.replies {
+      let asked: Vec<i64> = match r {
+        Reply::AckNack { bits, .. } => bits.clone(),
+        Reply::NackFrag { sn, .. } => vec![*sn],
+      };
+      if asked.iter().any(|m| far_parts.iter().any(|(fw, lo, hi)| *fw == op.writer() && lo <= m && m < hi)) {
+        tags.push("branch:gap_far_part_rerequested".to_string());
+      }
+    }
     maxbase = maxbase.max(o.base);
     for r in &o.replies {
       match r {
@@ -965,7 +1108,8 @@ fn fr(w: u8, sn: i64, k: u32) -> Op {
   Op::Frag { w, sn, start: k, count: 1, dsz: 20, fs: 8, payload: body[from..to].to_vec(), ts: None }
 }
 
-/// Fixed corpus: boundary cases from the proof's case splits; case 0 is the witness of the count
+/// Fixed corpus: boundary cases from the proof's case splits (13-20: the GAP window of repo fix
+/// c71c7f1); case 0 is the witness of the count
 /// order defect (NACKFRAG counts above the count of the ACKNACK that follows them on the wire).
 pub fn corpus() -> Vec<(Vec<u8>, Vec<Op>)> {
   let mut c: Vec<(Vec<u8>, Vec<Op>)> = Vec::new();
@@ -995,6 +1139,26 @@ pub fn corpus() -> Vec<(Vec<u8>, Vec<Op>)> {
   c.push((vec![1], vec![gap(1, 1, 2, 0, &[]), fr(1, 1, 1), hb(1, 1, 3, 1, false), fr(9, 1, 1), fr(1, 2, 3), fr(1, 3, 3), hb(1, 1, 3, 2, false)]));
   // 12: a heartbeat that moves the base over received samples
   c.push((vec![1], vec![d(1, 4), d(1, 5), d(1, 7), hb(1, 4, 7, 1, false), hb(1, 7, 7, 2, false)]));
+  // --- GAP ranges above the ack base are recorded only within 256 numbers from it (repo fix c71c7f1)
+  // 13: = C03_gap_window_example: GAP [5,1000) at base 1 -> 5..256 marked; DATA 1..4 -> base 257;
+  //     HEARTBEAT -> 257..512 requested again; renewed GAP [257,1000) -> base 1000
+  c.push((vec![1], vec![gap(1, 5, 1000, 0, &[]), hb(1, 1, 1200, 1, false), d(1, 1), d(1, 2), d(1, 3), d(1, 4), hb(1, 1, 1200, 2, false), gap(1, 257, 1000, 0, &[]), hb(1, 1, 1200, 3, false)]));
+  // 14: the edge of the cut: writer 1 GAP [2,257) (ends exactly at base+256: whole), writer 2 GAP
+  //     [2,258) (257 is declared but not recorded and is requested again)
+  c.push((vec![1, 2], vec![gap(1, 2, 257, 0, &[]), gap(2, 2, 258, 0, &[]), hb(1, 1, 600, 1, false), hb(2, 1, 600, 1, false), d(1, 1), d(2, 1), hb(1, 1, 600, 2, false), hb(2, 1, 600, 2, false), gap(2, 257, 258, 0, &[]), hb(2, 1, 600, 3, true)]));
+  // 15: ranges that start at / beyond the end of the window: [256,300) -> only 256; [257,280) and
+  //     [300,400) -> nothing; then the base moves there and the writer repeats them
+  c.push((vec![1], vec![gap(1, 256, 300, 0, &[]), gap(1, 257, 280, 0, &[]), gap(1, 300, 400, 0, &[]), hb(1, 255, 420, 1, false), d(1, 255), hb(1, 255, 420, 2, false), gap(1, 257, 300, 0, &[]), hb(1, 255, 420, 3, false), gap(1, 299, 400, 0, &[]), gap(1, 300, 400, 0, &[]), hb(1, 255, 420, 4, true)]));
+  // 16: the inputs of finding F6b (C06): 300000 and 2^40 numbers claimed by one GAP
+  c.push((vec![1], vec![gap(1, 5, 300_005, 0, &[]), gap(1, 5, 1i64 << 40, 0, &[]), hb(1, 1, 1i64 << 40, 1, false), d(1, 1), d(1, 2), d(1, 3), d(1, 4), hb(1, 1, 1i64 << 40, 2, false), gap(1, 257, 1i64 << 40, 0, &[]), hb(1, 1, (1i64 << 40) + 5, 3, false), gap(1, (1i64 << 40) + 1, MAX_SN, 0, &[]), hb(1, 1, MAX_SN, 4, false)]));
+  // 17: bitmap entries of a far GAP are recorded one by one wherever they lie
+  c.push((vec![1], vec![gap(1, 3, 600, 8, &[600, 603]), d(1, 1), d(1, 2), hb(1, 1, 700, 1, false), gap(1, 259, 600, 0, &[]), hb(1, 1, 700, 2, false), gap(1, 258, 600, 0, &[]), hb(1, 1, 700, 3, false)]));
+  // 18: span > 256 starting at / below the base: taken whole, no enumeration
+  c.push((vec![1], vec![d(1, 1), gap(1, 2, 1000, 0, &[]), hb(1, 1, 1300, 1, false), gap(1, 990, 2000, 4, &[2001]), hb(1, 1, 2300, 2, false), d(1, 2000), gap(1, 1, 5000, 0, &[]), hb(1, 1, 5000, 3, true)]));
+  // 19: a partially received sample in the far part of a GAP: NACKFRAG for a declared number
+  c.push((vec![1], vec![fr(1, 300, 1), gap(1, 5, 1000, 0, &[]), d(1, 1), d(1, 2), d(1, 3), d(1, 4), hb(1, 1, 1000, 1, false), gap(1, 257, 1000, 0, &[]), fr(1, 300, 2), fr(1, 300, 3), hb(1, 1, 1000, 2, false)]));
+  // 20: two far GAPs overlapping, the second arrives after the base has moved into the first
+  c.push((vec![1], vec![gap(1, 3, 400, 0, &[]), d(1, 1), d(1, 2), gap(1, 300, 700, 0, &[]), hb(1, 1, 800, 1, false), gap(1, 257, 300, 0, &[]), hb(1, 1, 800, 2, false), gap(1, 513, 700, 0, &[]), hb(1, 1, 800, 3, false)]));
   c
 }
 
